@@ -1,6 +1,6 @@
 (* C18 correspondence: observed behaviour of the real configuration layer against the model.
    Records, marshal / unmarshal / Complete come from gen/GenCfgMsg.v (today's source). *)
-From FRP Require Export Corr.Common Model.Literals Model.CfgMsg Model.Validate.
+From FRP Require Export Corr.Common Model.Literals Model.CfgMsg Model.Validate Model.Template Model.FlagsCheck.
 Open Scope Z_scope.
 
 (* the float oracle as a finite table filled by the harness with what strconv.ParseFloat and
@@ -87,7 +87,11 @@ Inductive case :=
 | CBandwidth (text : bytes) (fb : fb_table) (q : bwq) (e : bw_err) (q2 : bwq) (e2 : bw_err)
 (* strconv.Itoa / strconv.ParseInt(_, 10, 64) themselves *)
 | CItoa (n : Z) (text : bytes)
-| CParseInt (text : bytes) (res : option Z).
+| CParseInt (text : bytes) (res : option Z)
+(* real config.RenderWithTemplate on the document the segments spell, with the given environment *)
+| CTemplate (envs : list (bytes * bytes)) (segs : list tseg) (res : tresult)
+(* real frps flag set: --dashboard_tls_mode <arg> (+ cert and key file flags): parse error?, webServer.tls set? *)
+| CTlsFlag (arg : bytes) (parse_err enabled : bool).
 
 (* property monitor on the observed data alone: when the server accepted the registration, what it
    holds is the client's configuration minus the client-only fields, completed *)
@@ -158,6 +162,14 @@ Definition check_case (c : case) : Z :=
       | None, None => 0
       | _, _ => 72
       end
+  | CTemplate envs segs res =>
+      match tpl_render envs segs, res with
+      | TOk a, TOk b => if bytes_eqb a b then 0 else 81
+      | TErr, TErr => 0
+      | _, _ => 82
+      end
+  | CTlsFlag arg parse_err enabled =>
+      if parse_err then 91 else if Bool.eqb (bff_enables_tls arg) enabled then 0 else 92
   end.
 
 (* counters: which model branches the generated cases reached *)
@@ -186,3 +198,4 @@ Definition is_unknown_type (c : case) : bool :=
   match c with CMsgIn _ _ _ _ _ FMUnknownType | CRound _ _ _ _ _ _ FMUnknownType => true | _ => false end.
 Definition is_no_return (c : case) : bool :=
   match c with CRangeNumbers _ RNNoReturn | CPairs _ _ PairsNoReturn => true | _ => false end.
+Definition is_template_ok (c : case) : bool := match c with CTemplate _ _ (TOk _) => true | _ => false end.
